@@ -113,6 +113,18 @@ class _ForBack(ast.stmt):
         self.node = node
 
 
+COQ_TY.setdefault("keysZ", "Z -> bool")       # the key set of a dict with integer keys, as its membership function
+
+
+class _LoopHead(ast.stmt):
+    """continuation marker: the head of pass loop .loop (a program point: test the condition now)"""
+    _fields = ()
+
+    def __init__(self, loop):
+        super().__init__()
+        self.loop = loop
+
+
 def _cty(ty):
     """Coq type of a frame / parameter type tag"""
     if ty.startswith("list:"):
@@ -124,7 +136,8 @@ def _cty(ty):
 
 class GenSpec(FnSpec):
     def __init__(self, path, cls, method, name, requests=(), callouts=(), raises=(), objects=(), sees=None, interrupt=None,
-                 binds=None, param_objects=(), iterables=(), idx_aliases=(), idx_reads=(), spin=False, len_effects=None, **kw):
+                 binds=None, param_objects=(), iterables=(), idx_aliases=(), idx_reads=(), spin=False, len_effects=None, thread_loops=False, pass_loops=(),
+                 key_effects=None, binds_idx=None, demote=(), **kw):
         for bad in ("select", "guards", "aliases", "decorator", "ret"):
             if bad in kw:
                 raise ValueError(f"GenSpec: {bad} is not supported for generator bodies")
@@ -145,6 +158,17 @@ class GenSpec(FnSpec):
         # process resumed) plus the changes made on this path.  remove() of an absent element raises in Python: the bridge
         # states membership.
         self.len_effects = {p: dict(m) for p, m in (len_effects or {}).items()}
+        # thread_loops: a for-loop over a listed table becomes ONE separate definition gen_.._loop<n> (params) : list -> state ->
+        #   list fx -> result, a structural fix that takes the state record and the effects so far as arguments, so that
+        #   iterations which reach no yield may change state and have effects; program points call it with the rest of the table
+        # pass_loops [python test]: a `while <test>:` that can go around several times without yielding: its head is a program
+        #   point reached with NxAgain (no kernel step in between): ONE pass is generated, whoever uses it iterates
+        # key_effects {effect constructor: (keysZ state attr, True|False)}: the effect adds / deletes the key given by its
+        #   first hole; `k in self.attr` / `k not in self.attr` read the key set as changed so far on the path
+        # binds_idx {effect constructor: object local}: the creating effect binds an INDEXED object (index = first hole)
+        # demote [object local]: an indexed object that lives across a yield is a plain object afterwards
+        self.thread_loops, self.pass_loops = thread_loops, list(pass_loops)
+        self.key_effects, self.binds_idx, self.demote = dict(key_effects or {}), dict(binds_idx or {}), list(demote)
         self.interrupt = interrupt
 
 
@@ -189,6 +213,10 @@ class GenTr(FxTr):
                 if (isinstance(n, (ast.Expr, ast.Assign, ast.AnnAssign)) and isinstance(getattr(n, "value", None), ast.Yield)) \
                         or self.callout_of(n) is not None:
                     pts.append(n)
+        self.pass_tests = [ast.dump(_parse_expr(t)) for t in spec.pass_loops]
+        for n in ast.walk(f):
+            if isinstance(n, ast.While) and ast.dump(n.test) in self.pass_tests:
+                pts.append(n)
         pts.sort(key=lambda n: (n.lineno, n.col_offset))
         self.point = {id(n): i + 1 for i, n in enumerate(pts)}
         self.point_node = {i + 1: n for i, n in enumerate(pts)}
@@ -196,6 +224,8 @@ class GenTr(FxTr):
         self.frames = {0: {}}                 # program point -> {local name: type}  ("obj" for opaque objects)
         self.dirty = False
         self.final_pass = False
+        self.loopdefs = {}                    # for statement -> (name, text) of its separate definition (thread_loops)
+        self.param_names = []                 # names of the observation parameters, in signature order
 
     # ---- environment ------------------------------------------------------------------------------------------
     def env0(self):
@@ -253,20 +283,36 @@ class GenTr(FxTr):
                     raise Unsupported(f"{what} `{ast.unparse(node)[:60]}` mentions {n.id} on a path where no object is bound to it")
 
     def read(self, e, env):
-        r = super().read(e, env)
-        if r is None and self.idx_reads and isinstance(e, ast.expr):
+        if self.idx_reads and isinstance(e, ast.expr):
             d = ast.dump(e)
             for (dd, obj, param, ty) in self.idx_reads:      # an observation of an indexed object: a function of its index
                 if dd == d:
                     v = env["vars"].get(("local", obj))
-                    if v is None or v.ty != "obj" or v.term is None:
-                        raise Unsupported(f"observation `{ast.unparse(e)[:40]}`: {obj} is not bound to an indexed object here")
-                    return (f"({param} {v.term})", ty)
+                    if v is not None and v.ty == "obj" and v.term is not None:
+                        return (f"({param} {v.term})", ty)
+        r = super().read(e, env)
+        if r is None and self.idx_reads and isinstance(e, ast.expr):
+            d = ast.dump(e)
+            for (dd, obj, param, ty) in self.idx_reads:
+                if dd == d:
+                    raise Unsupported(f"observation `{ast.unparse(e)[:40]}`: {obj} is not bound to an indexed object here")
         if r is not None:
             self.check_bound(e, env, "observation")
             if r[1] == "len" and env["lendelta"].get(r[0]):
                 return (f"({r[0]} + ({env['lendelta'][r[0]]}))%Z", "len")
         return r
+
+    def cond(self, e, env):
+        if (isinstance(e, ast.Compare) and len(e.ops) == 1 and isinstance(e.ops[0], (ast.In, ast.NotIn))
+                and isinstance(e.comparators[0], ast.Attribute) and isinstance(e.comparators[0].value, ast.Name)
+                and e.comparators[0].value.id == "self" and ("self", e.comparators[0].attr) in env["vars"]
+                and env["vars"][("self", e.comparators[0].attr)].ty == "keysZ"):
+            k = self.expr(e.left, env)
+            if k.ty != "Z":
+                raise Unsupported("membership test with a non-integer key")
+            t = f"({env['vars'][('self', e.comparators[0].attr)].term} {k.term})"
+            return t if isinstance(e.ops[0], ast.In) else f"(negb {t})"
+        return super().cond(e, env)
 
     def expr(self, e, env):
         if isinstance(e, ast.Name) and super().read(e, env) is None:
@@ -299,6 +345,17 @@ class GenTr(FxTr):
                 for lp, m in self.spec.len_effects.items():
                     if con in m:
                         env2["lendelta"][lp] = env2["lendelta"].get(lp, 0) + m[con]
+                if con in self.spec.key_effects:                 # the effect adds / deletes a key of an observed dict
+                    attr, present = self.spec.key_effects[con]
+                    cur = env2["vars"][("self", attr)]
+                    if cur.ty != "keysZ" or not tys or tys[0] != "Z":
+                        raise Unsupported(f"key effect {con}: {attr} must be a keysZ state field and the first hole the key")
+                    env2["vars"][("self", attr)] = V(f"(gen_upd {cur.term} {args[0]} {'true' if present else 'false'})", "keysZ")
+                if con in self.spec.binds_idx:                   # `packet = self.head_of_line[c]`: an object known by its key
+                    tgt = s.targets[0] if isinstance(s, ast.Assign) and len(s.targets) == 1 else None
+                    if not isinstance(tgt, ast.Name) or tgt.id != self.spec.binds_idx[con] or not args:
+                        raise Unsupported(f"effect {con} must be an assignment to the object local {self.spec.binds_idx[con]}")
+                    env2["vars"][("local", tgt.id)] = V(args[0], "obj")
                 if con in self.spec.binds:                       # `packet = Packet(..)`: the effect creates the object
                     tgt = s.targets[0] if isinstance(s, ast.Assign) and len(s.targets) == 1 else None
                     if not isinstance(tgt, ast.Name) or tgt.id != self.spec.binds[con]:
@@ -329,7 +386,7 @@ class GenTr(FxTr):
         """does statement s contain anything that ends or leaves the straight-line path?"""
         for n in ast.walk(s):
             if isinstance(n, (ast.Yield, ast.YieldFrom, ast.Await, ast.Return, ast.Raise, ast.Assert, ast.While, ast.For,
-                              ast.Try, ast.Break, ast.Continue, ast.With, _RaiseMark, _Back, _EndTry, _ForBack)):
+                              ast.Try, ast.Break, ast.Continue, ast.With, _RaiseMark, _Back, _EndTry, _ForBack, _LoopHead)):
                 return True
             if isinstance(n, ast.stmt) and self.callout_of(n) is not None:
                 return True
@@ -353,7 +410,7 @@ class GenTr(FxTr):
 
         def live(stmts, out, brk, cont):
             for s in reversed(stmts):
-                if isinstance(s, _Back):
+                if isinstance(s, (_Back, _LoopHead)):
                     s = s.loop
                 hid = set()
                 if isinstance(s, _ForBack):
@@ -404,7 +461,8 @@ class GenTr(FxTr):
 
     @staticmethod
     def kont_key(kont):
-        return tuple(("back", id(i.loop)) if isinstance(i, _Back) else ("endtry", id(i.node)) if isinstance(i, _EndTry)
+        return tuple(("back", id(i.loop)) if isinstance(i, _Back) else ("head", id(i.loop)) if isinstance(i, _LoopHead)
+                     else ("endtry", id(i.node)) if isinstance(i, _EndTry)
                      else ("forback", id(i.node)) if isinstance(i, _ForBack) else ("s", id(i)) for i in kont)
 
     def pp_name(self, k):
@@ -422,7 +480,7 @@ class GenTr(FxTr):
         cand = {}
         for key, v in env["vars"].items():
             if key[0] == "local" and key[1] in later and key[1] != rebound and not key[1].startswith("\0"):
-                cand[key[1]] = "objidx" if (v.ty == "obj" and v.term is not None) else v.ty
+                cand[key[1]] = "objidx" if (v.ty == "obj" and v.term is not None and key[1] not in self.spec.demote) else v.ty
         if k not in self.frames:
             self.frames[k] = cand
             self.dirty = True
@@ -461,6 +519,8 @@ class GenTr(FxTr):
             return self.block(rest, env, k)
         if isinstance(s, _ForBack):
             return self.for_back(s.node, rest, env, k)
+        if isinstance(s, _LoopHead):
+            return self.do_while(s.loop, rest, env, k, at_head=True)
         if isinstance(s, _RaiseMark):
             return self.end_path(env, f"(NxRaise {s.con})")
         if any(_match(pat, s, {}) for pat in self.ignored):
@@ -533,7 +593,7 @@ class GenTr(FxTr):
                 and s.targets[0].id in self.spec.objects:
             env2 = self.effect(s, env)
             v = env2["vars"].get(("local", s.targets[0].id)) if env2 is not None else None
-            if env2 is None or v is None or v.ty != "obj" or not any(c in env2["done"] for c in self.spec.binds):
+            if env2 is None or v is None or v.ty != "obj" or not any(c in env2["done"] for c in list(self.spec.binds) + list(self.spec.binds_idx)):
                 raise Unsupported(f"the object local {s.targets[0].id} is assigned other than by `= yield <request>` or a "
                                   f"listed creating effect")
             return self.block(rest, env2, k)
@@ -566,9 +626,15 @@ class GenTr(FxTr):
                 return self.end_path(env, f"(NxYield {r} {self.reach(s, rest, env, rebound=target)})")
         raise Unsupported(f"`yield {ast.unparse(req)[:60]}` is not a listed request")
 
-    def do_while(self, w, rest, env, k):
+    def do_while(self, w, rest, env, k, at_head=False):
         if w.orelse:
             raise Unsupported("while ... else")
+        if ast.dump(w.test) in self.pass_tests:
+            if not at_head:
+                # the head of a pass loop is a program point: the path ends here, whoever runs the code goes on from it
+                return self.end_path(env, f"(NxAgain {self.reach(w, [_LoopHead(w)] + list(rest), env)})")
+            node = ast.If(test=w.test, body=list(w.body) + [_Back(w)], orelse=[])
+            return self.do_if(node, rest, env, k, force_split=True)
         if id(w) in env["unrolled"]:
             if self.spec.spin and self.unchanged(env, env["wsnap"][id(w)]):
                 # a whole iteration changed nothing and reached no yield: every further one does the same (the process hangs)
@@ -603,6 +669,8 @@ class GenTr(FxTr):
         loop is resumed from a program point inside it"""
         if s.orelse:
             raise Unsupported("for ... else")
+        if self.spec.thread_loops:
+            return self.call_loop(s, rest, env, k, over)
         lterm, tys = self.iterable(s.iter, env, types_only=over is not None)
         if over is not None:
             lterm = over
@@ -638,10 +706,72 @@ class GenTr(FxTr):
                 f"                " + _ind(body, 16) + "\n"
                 f"    end) {lterm})")
 
+    def state_record(self, env):
+        return "{| " + "; ".join(f"{self.prefix}{a.lstrip('_')} := {env['vars'][('self', a)].term}" for a, _ in self.state) + " |}"
+
+    def call_loop(self, s, rest, env, k, over):
+        """thread_loops: the loop is a separate definition; here: its call on the (rest of the) table, the state as it is now
+        and the effects so far.  Nothing but the loop's own variables may be read by the loop or after it."""
+        outer = {key[1] for key in env["vars"] if key[0] == "local"} - self.loop_locals(s, rest)
+        used = outer & self.names_after([s] + list(rest))
+        if used:
+            raise Unsupported(f"the for loop at line {s.lineno} (a separate definition) reads the outer locals {sorted(used)}")
+        name = self.loop_def(s, rest, k)
+        if over is None:
+            lterm, _ = self.iterable(s.iter, env)
+        else:
+            lterm = over
+        ps = "".join(" " + p for p in self.param_names)
+        return f"({name}{ps} {lterm} {self.state_record(env) if self.state else ''} {self.fx_term(env['fx'])})"
+
+    def loop_def(self, s, rest, k):
+        """the separate definition of for statement s (generated once per translation pass)"""
+        if id(s) in self.loopdefs:
+            return self.loopdefs[id(s)][0]
+        idx = self.for_index[id(s)]
+        name = f"{self.spec.name}_loop{idx}"
+        self.loopdefs[id(s)] = (name, None)                      # (a nested resumption refers to it by name)
+        _, tys = self.iterable(s.iter, self.env0(), types_only=True)
+        names = [s.target] if isinstance(s.target, ast.Name) else list(s.target.elts) if isinstance(s.target, ast.Tuple) else None
+        if names is None or any(not isinstance(n, ast.Name) for n in names) or len(names) != len(tys):
+            raise Unsupported("for target does not fit the element type of the listed iterable")
+        ety = COQ_TY[tys[0]] if len(tys) == 1 else "(" + " * ".join(COQ_TY[t] for t in tys) + ")"
+        saved = dict(self.counters)
+        self.counters = {}
+        env = self.env0()
+        env["fx"] = ("fx0", [])
+        fix = f"scan{idx}"
+        nil = self.block(list(rest), env, k)
+        env_b = self.copy(env)
+        env_b["forfix"][id(s)] = (fix, None)
+        vs = []
+        for n, t in zip(names, tys):
+            v = self.fresh(n.id)
+            vs.append(v)
+            env_b["vars"][("local", n.id)] = V(v, t)
+        env_b["vars"][("local", self.hidden(s))] = V("l'", f"list:{ety}")
+        body = self.block(list(s.body) + [_ForBack(s)] + list(rest), env_b, k)
+        self.counters = saved
+        bind = f"let {vs[0]} := x in " if len(vs) == 1 else f"let '({', '.join(vs)}) := x in "
+        st = f" (s : {self.record})" if self.state else ""
+        text = (f"  fix {fix} (l : list {ety}){st} (fx0 : list {self.effect_type}) {{struct l}} : {self.spec.ret_type} :=\n"
+                f"    match l with\n"
+                f"    | [] => " + _ind(nil, 12) + "\n"
+                f"    | x :: l' => {bind}\n"
+                f"                " + _ind(body, 16) + "\n"
+                f"    end")
+        self.loopdefs[id(s)] = (name, text)
+        return name
+
     def for_back(self, node, rest, env, k):
         h = env["vars"].get(("local", self.hidden(node)))
         if h is None:
             raise Unsupported("the rest of the table of a for loop is not available here")
+        if self.spec.thread_loops:
+            if id(node) in env["forfix"]:                        # inside the loop's own definition: the recursive call
+                fix, _ = env["forfix"][id(node)]
+                return f"({fix} {h.term} {self.state_record(env) if self.state else ''} {self.fx_term(env['fx'])})"
+            return self.call_loop(node, rest, env, k, h.term)
         if id(node) in env["forfix"]:
             fix, snap = env["forfix"][id(node)]
             if not self.unchanged(env, snap, ignore=self.loop_locals(node, rest)):
@@ -801,25 +931,6 @@ def translate_gen(spec, state, record, prefix, effect_type):
         raise Unsupported(f"{spec.cls}.{spec.method} is not a generator")
     _canonical_object_names(f, spec)
     spec.ret_type = " * ".join(([record] if state else []) + [f"list {effect_type}", spec.next_type])
-    tr = GenTr(spec, state, record, prefix, effect_type, f)
-    # frames: fixpoint (a frame only shrinks; a new point starts from what the first path to it defines)
-    for _ in range(4 * (len(tr.point) + 2)):
-        tr.dirty = False
-        done = set()
-        while True:
-            todo = [kpt for kpt in sorted(tr.konts) if kpt not in done]
-            if not todo:
-                break
-            for kpt in todo:
-                done.add(kpt)
-                tr.from_point(kpt)
-                if tr.has_handler(kpt):
-                    tr.from_point(kpt, intr=True)
-        if not tr.dirty:
-            break
-    else:
-        raise Unsupported("frames do not stabilise")
-    defs = []
     ps = (f" (s : {record})" if state else "")
     seen = {}
     tail = ""
@@ -847,6 +958,28 @@ def translate_gen(spec, state, record, prefix, effect_type):
         param(p, "op:" + t, f"({t}) -> ({t})")
     for (_, _, p, ty) in spec.bindings:
         param(p, ty, COQ_TY[ty])
+    tr = GenTr(spec, state, record, prefix, effect_type, f)
+    tr.param_names = list(seen)
+    # frames: fixpoint (a frame only shrinks; a new point starts from what the first path to it defines)
+    for _ in range(4 * (len(tr.point) + 2)):
+        tr.dirty = False
+        tr.loopdefs = {}
+        done = set()
+        while True:
+            todo = [kpt for kpt in sorted(tr.konts) if kpt not in done]
+            if not todo:
+                break
+            for kpt in todo:
+                done.add(kpt)
+                tr.from_point(kpt)
+                if tr.has_handler(kpt):
+                    tr.from_point(kpt, intr=True)
+        if not tr.dirty:
+            break
+    else:
+        raise Unsupported("frames do not stabilise")
+    defs = []
+    tr.loopdefs = {}
     rt = ([record] if state else []) + [f"list {effect_type}", spec.next_type]
     lines = open(spec.path).read().splitlines()
     for kpt in sorted(tr.konts):
@@ -858,6 +991,8 @@ def translate_gen(spec, state, record, prefix, effect_type):
             nd = tr.point_node[kpt]
             src = lines[nd.lineno - 1].strip()[:90].replace("(*", "( *").replace("*)", "* )")    # no Coq comment brackets
             where = f"resumed after line {nd.lineno}: `{src}`"
+            if isinstance(nd, ast.While):
+                where = f"at the head of the loop of line {nd.lineno}: `{src}` (reached with NxAgain: one pass, or what follows the loop)"
             y = _yield_of(nd)
             if y is not None and y[0] is not None:
                 objs = sorted(set(objs) | {y[0]})
@@ -870,7 +1005,14 @@ def translate_gen(spec, state, record, prefix, effect_type):
             if objs:
                 note += f"; objects bound: {', '.join(objs)}"
             defs.append(f"{note} *)\nDefinition {nm}{ps}{fr}{tail}\n  : {' * '.join(rt)} :=\n  " + _ind(body, 2) + ".\n")
-    return defs, tr
+    loops = []
+    for node_id, (name, text) in sorted(tr.loopdefs.items(), key=lambda kv: -tr.for_index[kv[0]]):
+        if text is None:
+            raise Unsupported("a loop definition refers to itself from outside its body")
+        loops.append(f"(* {spec.cls}.{spec.method}, the for loop number {tr.for_index[node_id]} as a separate definition: the (rest of the) table, "
+                     f"the state and the effects so far -> as for a program point *)\n"
+                     f"Definition {name}{tail}\n  :=\n{text}.\n")
+    return loops + defs, tr
 
 
 def gen_run_module(title, spec, state, record, prefix, effect_type, fx_cons, req_cons, call_cons=(), exn_cons=(),
@@ -890,7 +1032,7 @@ def gen_run_module(title, spec, state, record, prefix, effect_type, fx_cons, req
     if any(p is None for (_, p, _) in spec.iterables):
         out.append("(* range(n) *)")
         out.append("Definition gen_range (n : Z) : list Z := map Z.of_nat (seq 0 (Z.to_nat n)).")
-    if any(ty in ("mapQ", "mapZ") for _, ty in state):
+    if any(ty in ("mapQ", "mapZ", "keysZ") for _, ty in state):
         out.append("(* d[k] = v on a dict modelled as a total function *)")
         out.append("Definition gen_upd {V : Type} (f : Z -> V) (k : Z) (v : V) : Z -> V := fun x => if Z.eqb x k then v else f x.")
     if state:
@@ -916,6 +1058,8 @@ def gen_run_module(title, spec, state, record, prefix, effect_type, fx_cons, req
     nx += [("NxExit", ""), ("NxRaise", f"(e : {types}_exn)")]
     if spec.spin:
         nx.append(("NxSpin", ""))          # the generator loops for ever without yielding
+    if spec.pass_loops:
+        nx.append(("NxAgain", f"(k : {types}_pp)"))      # go on at the head of a pass loop (no kernel step in between)
     out.append(ind(f"{types}_next", nx))
     out.append("")
     out += defs
